@@ -57,19 +57,22 @@ def parse_not_a_choice(msg):
     first = lines[0]
     m = re.match(r"Not a possible choice for [^:]*: ", first)
     value = first[m.end():] if m else first
+    w = _WHERE_TAIL.search(value)
+    line = re.search(r"(\d+)\)$", w.group(0)).group(1) if w else "0"
     value = _WHERE_TAIL.sub("", value)
     alts = []
     if len(lines) >= 2 and lines[1].strip() == "Possible choices are:":
         alts = [l[4:] if l.startswith("    ") else l for l in lines[2:]]
-    return value, alts
+    return value, alts, line
 
 
 def err_obs(e):
     cls = exc_class(e)
     msg = str(e)
     if cls == "Sorry" and kind_of(msg) == "NotAChoice":
-        v, alts = parse_not_a_choice(msg)
-        return ["err", "Sorry", "NotAChoice", v, alts]
+        v, alts, line = parse_not_a_choice(msg)
+        # the cited line is that of the offending token (not of the first word of the value)
+        return ["err", "Sorry", "NotAChoice", v, alts, line]
     if cls in ("Sorry", "RuntimeError"):
         return ["err", cls, kind_of(msg)]
     return ["err", cls]
@@ -104,7 +107,7 @@ def model_fetch_obs(r):
         return ["ok", r[1]]
     if r[0] == "notachoice":
         # "\n    ".join([]) and "\n    ".join([""]) print the same text: an empty list reads back as [""]
-        return ["err", "Sorry", "NotAChoice", r[1], r[3] or [""]]
+        return ["err", "Sorry", "NotAChoice", r[1], r[3] or [""], str(r[2])]
     if r[0] == "crash":
         return ["err", "other:" + r[1]]
     return ["model?", r]
